@@ -147,7 +147,8 @@ func (c *c07Ctx) eq(a, b ast.Expr) string {
 // A membership test "<r> lists <r'>.Name in Replaces" in its other two spellings (the loop is
 // rangeReplaces below): slices.Contains(<r>.Replaces, <r'>.Name), or a call of a helper that
 // is new relative to the recorded base and whose body is exactly the loop
-//     for _, v := range p.Replaces { if name == v { return true } }; return false
+//
+//	for _, v := range p.Replaces { if name == v { return true } }; return false
 func (c *c07Ctx) membership(call *ast.CallExpr) string {
 	var list, elem ast.Expr
 	switch {
@@ -307,79 +308,100 @@ func c07Rows(c *c07Ctx, list []ast.Stmt, errVar string, isEnd func(ast.Stmt) (bo
 		}
 		return ""
 	}
-	for _, st := range list {
-		if end, d := isEnd(st); end {
-			return rows, d
+	// walk reads a statement list; a block `{ … }` is what goextract's inliner leaves where a
+	// single-use helper was called (`if helper(a, b) { … }` becomes
+	// `{ <helper body, return v -> inlinedResult = v>; if inlinedResult { … } }`): its statements
+	// are read in place
+	var walk func(list []ast.Stmt, inlined bool) (bool, string)
+	walk = func(list []ast.Stmt, inlined bool) (bool, string) {
+		for _, st := range list {
+			if end, d := isEnd(st); end {
+				return true, d
+			}
+			switch x := st.(type) {
+			case *ast.DeclStmt:
+				continue
+			case *ast.BlockStmt:
+				if end, d := walk(x.List, true); end {
+					return true, d
+				}
+				continue
+			case *ast.IfStmt:
+				if x.Init == nil && x.Else == nil {
+					if o := oneReturn(x.Body.List); o != "" {
+						rows = append(rows, "("+c.cond(x.Cond)+", "+o+")")
+						continue
+					}
+				}
+			case *ast.RangeStmt:
+				if cnd, body := c.rangeReplaces(x); cnd != "" {
+					if o := oneReturn(body); o != "" {
+						rows = append(rows, "("+cnd+", "+o+")")
+						continue
+					}
+					// flag = true; break
+					if len(body) >= 1 {
+						if as, ok := body[0].(*ast.AssignStmt); ok && len(as.Lhs) == 1 && len(as.Rhs) == 1 && exprText(as.Rhs[0]) == "true" {
+							if id, ok := as.Lhs[0].(*ast.Ident); ok {
+								c.vars[id.Name] = cnd
+								continue
+							}
+						}
+					}
+				}
+			case *ast.AssignStmt:
+				// flag := false   |   v := a.Origin == b.Origin   |   _, f := replaceMap[old.Name]   |   old, ok := a.installedFiles[...]
+				if len(x.Lhs) == 1 && len(x.Rhs) == 1 {
+					if id, ok := x.Lhs[0].(*ast.Ident); ok {
+						if exprText(x.Rhs[0]) == "false" {
+							// flag := false before its loop; after it only as the inliner's rendering of the
+							// helper's final `return false` (the loop's `return true` became `flag = true`)
+							if _, set := c.vars[id.Name]; set && !inlined {
+								fail("%s: %s is reset after it was computed", c.where, id.Name)
+							}
+							continue
+						}
+						if r, ok := x.Rhs[0].(*ast.Ident); ok {
+							if rl, ok := c.role[r.Name]; ok {
+								c.role[id.Name] = rl // another name for the same package
+								continue
+							}
+						}
+						if be, ok := x.Rhs[0].(*ast.BinaryExpr); ok && (be.Op == token.EQL || be.Op == token.NEQ) {
+							c.vars[id.Name] = c.cond(be)
+							continue
+						}
+						// replaces := slices.Contains(new.Replaces, old.Name)   |   := helper(new, old.Name)
+						if call, ok := x.Rhs[0].(*ast.CallExpr); ok {
+							if m := c.membership(call); m != "" {
+								c.vars[id.Name] = m
+								continue
+							}
+						}
+					}
+				}
+				if len(x.Lhs) == 2 && len(x.Rhs) == 1 {
+					if ix, ok := x.Rhs[0].(*ast.IndexExpr); ok {
+						l0, _ := x.Lhs[0].(*ast.Ident)
+						l1, _ := x.Lhs[1].(*ast.Ident)
+						if strings.HasSuffix(exprText(ix.X), ".installedFiles") && l0 != nil && l1 != nil {
+							c.role[l0.Name] = "old"
+							c.vars[l1.Name] = "(CNot COldUnknown)"
+							continue
+						}
+						if r, f := c.pkgField(ix.Index); r == "old" && f == "Name" && l1 != nil && c.vars["map:"+exprText(ix.X)] == "new.Replaces" {
+							c.vars[l1.Name] = "CNewDeclaresOld"
+							continue
+						}
+					}
+				}
+			}
+			fail("%s: statement %q is none of the known shapes of the decision procedure", c.where, firstLine(exprText(st)))
 		}
-		switch x := st.(type) {
-		case *ast.DeclStmt:
-			continue
-		case *ast.IfStmt:
-			if x.Init == nil && x.Else == nil {
-				if o := oneReturn(x.Body.List); o != "" {
-					rows = append(rows, "("+c.cond(x.Cond)+", "+o+")")
-					continue
-				}
-			}
-		case *ast.RangeStmt:
-			if cnd, body := c.rangeReplaces(x); cnd != "" {
-				if o := oneReturn(body); o != "" {
-					rows = append(rows, "("+cnd+", "+o+")")
-					continue
-				}
-				// flag = true; break
-				if len(body) >= 1 {
-					if as, ok := body[0].(*ast.AssignStmt); ok && len(as.Lhs) == 1 && len(as.Rhs) == 1 && exprText(as.Rhs[0]) == "true" {
-						if id, ok := as.Lhs[0].(*ast.Ident); ok {
-							c.vars[id.Name] = cnd
-							continue
-						}
-					}
-				}
-			}
-		case *ast.AssignStmt:
-			// flag := false   |   v := a.Origin == b.Origin   |   _, f := replaceMap[old.Name]   |   old, ok := a.installedFiles[...]
-			if len(x.Lhs) == 1 && len(x.Rhs) == 1 {
-				if id, ok := x.Lhs[0].(*ast.Ident); ok {
-					if exprText(x.Rhs[0]) == "false" {
-						continue
-					}
-					if r, ok := x.Rhs[0].(*ast.Ident); ok {
-						if rl, ok := c.role[r.Name]; ok {
-							c.role[id.Name] = rl // another name for the same package
-							continue
-						}
-					}
-					if be, ok := x.Rhs[0].(*ast.BinaryExpr); ok && (be.Op == token.EQL || be.Op == token.NEQ) {
-						c.vars[id.Name] = c.cond(be)
-						continue
-					}
-					// replaces := slices.Contains(new.Replaces, old.Name)   |   := helper(new, old.Name)
-					if call, ok := x.Rhs[0].(*ast.CallExpr); ok {
-						if m := c.membership(call); m != "" {
-							c.vars[id.Name] = m
-							continue
-						}
-					}
-				}
-			}
-			if len(x.Lhs) == 2 && len(x.Rhs) == 1 {
-				if ix, ok := x.Rhs[0].(*ast.IndexExpr); ok {
-					l0, _ := x.Lhs[0].(*ast.Ident)
-					l1, _ := x.Lhs[1].(*ast.Ident)
-					if strings.HasSuffix(exprText(ix.X), ".installedFiles") && l0 != nil && l1 != nil {
-						c.role[l0.Name] = "old"
-						c.vars[l1.Name] = "(CNot COldUnknown)"
-						continue
-					}
-					if r, f := c.pkgField(ix.Index); r == "old" && f == "Name" && l1 != nil && c.vars["map:"+exprText(ix.X)] == "new.Replaces" {
-						c.vars[l1.Name] = "CNewDeclaresOld"
-						continue
-					}
-				}
-			}
-		}
-		fail("%s: statement %q is none of the known shapes of the decision procedure", c.where, firstLine(exprText(st)))
+		return false, ""
+	}
+	if end, d := walk(list, false); end {
+		return rows, d
 	}
 	fail("%s: the decision procedure does not end where expected", c.where)
 	return rows, "OKeep"
